@@ -33,15 +33,7 @@ Theorem c06_each_once_after_set :
   (terminal s = true ->
      (forall c e, nth_error (cs s) c = Some e -> ck e <> KEvent -> exists r, cv e = [Some r] /\ val s = Some r) /\
      nfail s = length (iruns s) + count cinl (cs s)).
-Proof.
-  intros wf tr s H. pose proof (inv_reach wf tr s H) as I.
-  split; [intros c e; apply cb_once; exact I|].
-  split; [intros c e; apply cb_after_set; exact I|].
-  split; [intros v Hv; apply (proj1 (values_ok s I)); apply in_or_app; right; exact Hv|].
-  split; [exact (I_fail s I)|].
-  split; [intros c e; apply none_left; exact I|].
-  intros T. destruct (terminal_exact s I T) as [A [B _]]. split; [exact A|exact B].
-Qed.
+Proof. intros wf tr s H. exact (each_once_all s (inv_reach wf tr s H)). Qed.
 Print Assumptions c06_each_once_after_set.
 
 (* No observer ever reads an unset, moved-from or destroyed value: every Get / Touch / await_resume, every inline
@@ -60,11 +52,7 @@ Theorem c06_no_moved_read :
      refs s = 1 /\ fpc s = FDone /\ count live (hs s) = 1 /\ count held (cs s) = 0) /\
   (forall c e dc, nth_error (cs s) c = Some e -> cst e = CConn true dc ->
      refs s = 2 /\ fpc s = FLast c /\ count live (hs s) = 0 /\ count held (cs s) = 0).
-Proof.
-  intros wf tr s H. pose proof (inv_reach wf tr s H) as I.
-  destruct (values_ok s I) as [V1 V2]. destruct (move_decisions_exclusive s I) as [M1 M2].
-  split; [exact V1|split; [exact V2|split; [apply moved_only_when_alone; exact I|split; [exact M1|exact M2]]]].
-Qed.
+Proof. intros wf tr s H. exact (no_moved_all s (inv_reach wf tr s H)). Qed.
 Print Assumptions c06_no_moved_read.
 
 (* The reference counter: it is always exactly  promise-side references (3, then 2, 1, 0 as SetResultImpl drops them)
@@ -77,11 +65,7 @@ Theorem c06_refs :
   refs s = prom (fpc s) + count live (hs s) + count held (cs s) /\
   (alive s = false -> w s = WRes /\ fpc s = FDone) /\
   (terminal s = true -> refs s = 0 /\ alive s = false /\ frees s = 1).
-Proof.
-  intros wf tr s H. pose proof (inv_reach wf tr s H) as I.
-  destruct (refs_ok s I) as [A [B [C [D [E [F G]]]]]].
-  repeat (split; [assumption|]). intros T. apply (terminal_exact s I T).
-Qed.
+Proof. intros wf tr s H. exact (refs_all s (inv_reach wf tr s H)). Qed.
 Print Assumptions c06_refs.
 
 (* Ready()==true (and await_ready()==true) implies the value can be read: at the moment of every such answer the
@@ -100,10 +84,7 @@ Print Assumptions c06_ready_sound.
 Theorem c06_ready_sound_old_rule_refuted :
   exists tr s, run_g false (init true) tr = Some s /\
     In (true, false) (readys s) /\ In None (gots s) /\ slot s = Unset.
-Proof.
-  exists [ECopy 0; EAttL 0 (PCb KInl) OE; ECas 0 true; EReady 1 OL; ETouchL 1 false OL; EGot 1].
-  eexists. split; [vm_compute; reflexivity|]. vm_compute. repeat split; auto.
-Qed.
+Proof. exact old_rule_witness. Qed.
 Print Assumptions c06_ready_sound_old_rule_refuted.
 
 (* The obligations on what the translators read from the source (they break when the source regresses). *)
